@@ -212,21 +212,21 @@ pub proof fn lemma_fold_is_x_write(sym0: SymView, s: (Seq<u8>, Seq<u8>), e: (Seq
             }
         },
     }
-}
+} //@C
 pub proof fn lemma_w_fold_none(sym0: SymView, s: (Seq<u8>, Seq<u8>), e: (Seq<u8>, Seq<u8>), rs: Seq<u8>, pat: Seq<Tok>, k: int, n: int)
     requires 0 <= k <= n, w_fold(sym0, s, e, rs, pat, k) is None
     ensures w_fold(sym0, s, e, rs, pat, n) is None
     decreases n - k
 {
     if k < n { lemma_w_fold_none(sym0, s, e, rs, pat, k, n - 1); }
-}
+} //@C
 pub proof fn lemma_r_fold_err(sym0: SymView, s: (Seq<u8>, Seq<u8>), msg: Seq<u8>, pat: Seq<Tok>, k: int, n: int)
     requires 0 <= k <= n, r_fold(sym0, s, msg, pat, k) is Err
     ensures r_fold(sym0, s, msg, pat, n) == r_fold(sym0, s, msg, pat, k)
     decreases n - k
 {
     if k < n { lemma_r_fold_err(sym0, s, msg, pat, k, n - 1); }
-}
+} //@C
 pub proof fn lemma_fold_is_x_read(sym0: SymView, s: (Seq<u8>, Seq<u8>), msg: Seq<u8>)
     requires 96 <= msg.len() <= 65535
     ensures x_read(sym0, s, msg) == (match r_fold(sym0, s, msg, x_pattern(), 4) {
@@ -240,4 +240,4 @@ pub proof fn lemma_fold_is_x_read(sym0: SymView, s: (Seq<u8>, Seq<u8>), msg: Seq
     reveal_with_fuel(r_fold, 5);
     let p = x_pattern();
     assert(p[0] == Tok::E && p[1] == Tok::ES && p[2] == Tok::S && p[3] == Tok::SS);
-}
+} //@C
